@@ -487,7 +487,82 @@ def r_pred_identity(ck: Checker) -> None:
     ck.need(n >= 3, f"name comparisons found ({n})")
 
 
+ONE_SHOT_CALLS = ("enumerate", "zip", "map", "filter", "iter", "reversed", "chain", "from_iterable", "product", "permutations", "combinations", "islice", "takewhile", "dropwhile", "starmap", "groupby")
+
+
+def _one_shot_stores(tree: ast.AST) -> list[ast.stmt]:
+    """assignments that keep a one-shot iterator in an attribute (`self.x = enumerate(..)`, a generator expression, ...)"""
+    out: list[ast.stmt] = []
+    for node in ast.walk(tree):
+        if not isinstance(node, (ast.Assign, ast.AnnAssign)) or node.value is None:
+            continue
+        targets = node.targets if isinstance(node, ast.Assign) else [node.target]
+        if not any(isinstance(t, ast.Attribute) for t in targets):
+            continue
+        v = node.value
+        if isinstance(v, ast.GeneratorExp) or (isinstance(v, ast.Call) and unparse(v.func).split(".")[-1] in ONE_SHOT_CALLS):
+            out.append(node)
+    return out
+
+
+def r_one_shot(ck: Checker) -> None:
+    """an iterator is consumed by its first traversal: kept on an object it makes the second call of a method see an empty
+    sequence (TranslationMap.translate_parameters then maps every later atom to no arguments at all)"""
+    probe = ast.parse("class T:\n    def __init__(self, m):\n        self.m = enumerate(m)\n        self.k = list(m)\n")
+    hit = _one_shot_stores(probe)
+    ck.add("matcher self-test: `self.m = enumerate(m)` is recognised, `self.k = list(m)` is not", len(hit) == 1 and hit[0].lineno == 3, "ngo:<all>", None, f"{len(hit)} store(s) matched in the probe", "", nontrivial=False)
+    n = 0
+    for func in ck.prg.funcs.values():
+        if isinstance(func.node, ast.Lambda):
+            continue
+        stores = [x for x in ast.walk(func.node) if isinstance(x, (ast.Assign, ast.AnnAssign)) and any(isinstance(t, ast.Attribute) for t in (x.targets if isinstance(x, ast.Assign) else [x.target]))]
+        n += len(stores)
+        for st_ in _one_shot_stores(func.node):
+            ck.add(f"{tag(func.module.name)} {func.name}: no one-shot iterator is kept in an attribute", False, func, st_, f"`{short(unparse(st_), 90)}` stores an iterator that its first traversal exhausts",
+                   "every later traversal sees nothing: the second atom translated through the same TranslationMap loses all its arguments, an objective over it silently costs 0")
+    ck.add("no one-shot iterator is kept in an attribute (TranslationMap, translators, name generators)", True, "ngo:<all>", None, f"{n} attribute stores examined", "", nontrivial=False)
+    ck.need(n >= 60, f"attribute stores found ({n})")
+
+
+def _cross_wired(fnode: ast.AST) -> list[tuple[ast.stmt, str, str]]:
+    """`self.a = b` in a constructor where a and b are both parameters and a != b"""
+    args = getattr(fnode, "args", None)
+    if args is None:
+        return []
+    params = {a.arg for a in args.posonlyargs + args.args + args.kwonlyargs} - {"self", "cls"}
+    out = []
+    for node in ast.walk(fnode):
+        if isinstance(node, (ast.Assign, ast.AnnAssign)) and node.value is not None:
+            for t in (node.targets if isinstance(node, ast.Assign) else [node.target]):
+                if isinstance(t, ast.Attribute) and isinstance(t.value, ast.Name) and t.value.id == "self" and t.attr in params:
+                    used = {x.id for x in ast.walk(node.value) if isinstance(x, ast.Name)} & params
+                    if used and t.attr not in used:
+                        out.append((node, t.attr, ", ".join(sorted(used))))
+    return out
+
+
+def r_ctor_wiring(ck: Checker) -> None:
+    """a constructor that keeps its parameters keeps each under its own name: `self.output_predicates = input_predicates`
+    silently hands the pass the wrong declaration (outputs are no longer protected from being inlined away)"""
+    probe = ast.parse("class T:\n    def __init__(self, a, b):\n        self.a = a\n        self.b = a\n").body[0].body[0]  # type: ignore[attr-defined]
+    hit = _cross_wired(probe)
+    ck.add("matcher self-test: `self.b = a` is recognised, `self.a = a` is not", len(hit) == 1 and hit[0][1] == "b", "ngo:<all>", None, f"{len(hit)} store(s) matched in the probe", "", nontrivial=False)
+    n = 0
+    for func in ck.prg.funcs.values():
+        if isinstance(func.node, ast.Lambda) or not func.name.endswith("__init__"):
+            continue
+        n += 1
+        bad = _cross_wired(func.node)
+        for node, attr, used in bad:
+            ck.add(f"{tag(func.module.name)} {func.name}: the parameter `{attr}` is what `self.{attr}` keeps", False, func, node, f"`{short(unparse(node), 90)}`: the attribute named after parameter `{attr}` is filled from `{used}`",
+                   "the pass then works with another declaration than the caller gave: with the inputs in place of the outputs, inline unfolds and deletes a rule that defines a declared output predicate")
+        if not bad:
+            ck.add(f"{tag(func.module.name)} {func.name}: every kept parameter is kept under its own name", True, func, func.node, "no attribute named after one parameter is filled from another", "", nontrivial=False)
+    ck.need(n >= 10, f"constructors found ({n})")
+
+
 _EXTRA = module_extra()
+_EXTRA_ONE_SHOT = {**_EXTRA, **{p_: tuple(_EXTRA.get(p_, ())) + ("TranslationMap", "[utils.ast]") for p_ in ("C02", "C12", "C13")}}
 
 RULES = [
     Rule("GEN.class-state", ("C17", "C01"), r_class_state, extra=_EXTRA),
@@ -496,4 +571,6 @@ RULES = [
     Rule("GEN.memo-key", ("C01",), r_memo_key, extra=_EXTRA),
     Rule("GEN.pred-identity", ("C01",), r_pred_identity, extra=_EXTRA),
     Rule("GEN.loop-leak", ("C01",), r_loop_leak, extra=_EXTRA),
+    Rule("GEN.one-shot", ("C01",), r_one_shot, extra=_EXTRA_ONE_SHOT),
+    Rule("GEN.ctor-wiring", ("C01", "C07"), r_ctor_wiring, extra=_EXTRA),
 ]
